@@ -98,6 +98,7 @@ class Session:
         self.log_pos = 0
         self.held_with_events = 0
         self.violations = []
+        self.transit_gate = None
         self.kill_state = None  # (drv, flow, where) -> dict describing what the flow was doing when it was killed
 
     # -- addon side ----------------------------------------------------------------------------------------
@@ -207,7 +208,7 @@ class Session:
         after = self.r.randint(1, 25)
 
         def gate(d):
-            return d.step_no >= after and any(f.killable and not f.intercepted for f in self.flows)
+            return d.step_no >= after and any(f.killable and not f.intercepted for f in self.flows) and (self.transit_gate is None or self.transit_gate(d))
 
         def act(d):
             cands = [f for f in self.flows if f.killable and not f.intercepted]
@@ -300,8 +301,8 @@ def classify(proto, kind, info):
         if proto in ("h1", "h2"):
             if where == "request" and st.get("request_streamed"):
                 return "http-kill-in-request-hook-of-streamed-request-ignored"
-            if where == "transit" and (st.get("streaming_request_body") or st.get("streaming_response_body")):
-                return "http-kill-in-transit-while-body-is-streaming"
+            if where == "transit":
+                return "http-kill-in-transit-takes-effect-only-at-the-next-hook"
     return None
 
 
@@ -537,16 +538,483 @@ def run_dns_case(ctx, opts, loop, proto):
 
 
 # --------------------------------------------------------------------------------------------------------------
+# HTTP/1
+# --------------------------------------------------------------------------------------------------------------
+HTAG = re.compile(rb"t\d+-[0-9a-f]{6}")
+HTTP_HOOKS = ("requestheaders", "request", "responseheaders", "response")
+
+
+def http_tag(f):
+    m = HTAG.search(f.request.path.encode("latin-1", "replace"))
+    return m.group(0) if m else None
+
+
+def http_flow_hooks(drv, f):
+    return [name for (step, name, hook, snap) in drv.hooks if hook.args() and hook.args()[0] is f]
+
+
+def http_kill_state(drv, f, where):
+    fired = http_flow_hooks(drv, f)
+    pend = [p.cmd.name for p in drv.pending if p.kind == "hook" and p.cmd.args() and p.cmd.args()[0] is f]
+    rs = bool(f.request.stream)
+    ps = bool(f.response is not None and f.response.stream)
+    return {
+        "request_streamed": rs,
+        "response_streamed": ps,
+        "hooks_fired": fired,
+        "hooks_pending": pend,
+        "streaming_request_body": rs and "requestheaders" in fired and "request" not in fired and "requestheaders" not in pend,
+        "streaming_response_body": ps and "responseheaders" in fired and "response" not in fired and "responseheaders" not in pend,
+    }
+
+
+def http_describe_factory(r, to_server_metric, to_client_metric, p_stream, has_body):
+    def describe(drv, hook, f):
+        if hook.name not in HTTP_HOOKS or not isinstance(f, http.HTTPFlow):
+            return None
+        req_side = hook.name in ("requestheaders", "request")
+        tag = http_tag(f)
+        if hook.name == "requestheaders" and has_body(tag):
+            if r.random() < p_stream and f.response is None:
+                f.request.stream = True
+        if hook.name == "responseheaders" and f.response is not None and r.random() < p_stream:
+            f.response.stream = True
+        msg = (lambda: f.request) if req_side else (lambda: f.response)
+        streamed = bool(msg() is not None and msg().stream)
+
+        def capture():
+            m = msg()
+            if m is None:
+                return None
+            return (None if m.stream else bytes(m.raw_content or b""), m.headers.get("x-edit"))
+
+        return {
+            "tag": tag, "side": "server" if req_side else "client", "streamed": streamed,
+            "metric": (lambda: to_server_metric(drv, tag)) if req_side else (lambda: to_client_metric(drv, tag)),
+            "capture": capture,
+            "editable": msg() is not None and not (hook.name in ("request", "response") and streamed),
+        }
+
+    return describe
+
+
+def http_edit_factory(r):
+    def edit(rec):
+        f = rec["flow"]
+        m = f.request if rec["side"] == "server" else f.response
+        m.headers["x-edit"] = "%s-%d" % (rec["hook"], r.randint(0, 999))
+        if rec["hook"] in ("request", "response") and not m.stream:
+            nobody = rec["hook"] == "response" and (f.request.method.upper() == "HEAD" or m.status_code in (204, 304))
+            if not nobody:
+                m.content = b"EDITED:" + (rec["tag"] or b"") + b":" + bytes(r.choice(b"UVW") for _ in range(r.randint(0, 40)))
+
+    return edit
+
+
+def run_h1_case(ctx, opts, loop, proto):
+    import random as _random
+
+    from vf import h1case, peers
+    from vf.gen import h1 as gen
+    from vf.ref import http1 as ref
+
+    r = ctx.rng
+    mode = r.choice(h1case.MODES)
+    gmode = "regular" if mode == "regular" else "origin"
+    n = r.choice([1, 1, 2, 3])
+    reqs = [gen.gen_request(r, k, mode=gmode, force_valid=True, allow_expect=False) for k in range(n)]
+    by_tag = {q["tag"]: q for q in reqs}
+    salt = r.getrandbits(32)
+    resp_by_tag = {}
+
+    def responder(k, msg, peer):
+        m = HTAG.search(msg["target"])
+        tag = m.group(0) if m else b"unknown"
+        rs = gen.gen_response(_random.Random(f"{salt}/{tag!r}"), tag, msg["method"], hostile_p=0.0, allow_extra_after=False)
+        resp_by_tag[tag] = rs
+        return rs["raw"], rs["close_after"]
+
+    to_server = lambda drv, tag: sum(len(drv.out[c]) for c in drv.servers)
+    to_client = lambda drv, tag: len(drv.out[drv.client])
+    S = Session(ctx, r, loop, "h1", http_describe_factory(r, to_server, to_client, 0.3, lambda tag: tag in by_tag and by_tag[tag]["framing"] != "none"), http_edit_factory(r), p_intercept=0.25, p_kill=0.05, transit=0.2)
+    S.kill_state = http_kill_state
+    client = sansio.make_client(mode)
+    d = sansio.Driver(
+        h1case.top_factory(mode), client=client, options=opts, rng=r, addons=[h1case.ForceHttp(), ctx.c11_intercept], policy=S.policy,
+        server_factory=lambda drv, conn: peers.H1ServerPeer(responder, r, r.choice(["whole", "random", "random", "bytes"])),
+        schedule=r.choice(["random", "random", "fifo"]), m3=[S.m3], max_steps=4000,
+    )
+    if mode == "transparent":
+        d.context.server.address = ("example.com", 80)
+    stream = b"".join(q["raw"] for q in reqs)
+    segs = peers.cut(stream, r, r.choice(["whole", "random", "random", "bytes"] if len(stream) < 1500 else ["whole", "random"]))
+    d.attach_client_peer(sansio.ScriptPeer(segs))
+    S.drive(d)
+
+    witness = {"proto": "h1", "mode": mode, "client_stream": stream[:600], "hooks": d.hook_names(), "records": [(x["hook"], x["tag"], x["decision"], x.get("streamed")) for x in S.records],
+               "kills": [(k["hook"], k["how"]) for k in S.kills], "exceptions": [e[:3] for e in d.exceptions]}
+    up_msgs = []
+    for conn in d.servers:
+        status, msgs, rest = ref.parse_requests(bytes(d.out[conn]))
+        up_msgs += msgs
+    status, down_msgs, rest = ref.parse_responses(bytes(d.out[client]), [q["method"] for q in reqs], eof=True)
+    killed_flows = {id(k["flow"]) for k in S.kills}
+    flows = {}
+    for rec in S.records:
+        flows.setdefault(rec["tag"], []).append(rec)
+    ok_dec = ("pass", "hold:resume", "hold:edit+resume")
+    for tag, recs in flows.items():
+        if tag is None or tag not in by_tag:
+            continue
+        f = recs[0]["flow"]
+        ups = [m for m in up_msgs if tag in m["target"]]
+        downs = [m for m in down_msgs if dict(m["headers"]).get("x-tag") == tag]
+        ctx.count("once")
+        if len(ups) > 1 or len(downs) > 1:
+            S.violate("message-delivered-more-than-once", {**witness, "tag": tag, "upstream_copies": len(ups), "client_copies": len(downs)})
+            continue
+        by_hook = {x["hook"]: x for x in recs}
+        complete = id(f) not in killed_flows and f.error is None and all(h in by_hook and by_hook[h]["decision"] in ok_dec for h in HTTP_HOOKS)
+        if not complete:
+            continue
+        if len(ups) != 1 or len(downs) != 1:
+            S.violate("resumed-message-not-delivered", {**witness, "tag": tag, "upstream_copies": len(ups), "client_copies": len(downs), "to_client": bytes(d.out[client])[-600:]})
+            continue
+        for side, got, hh, hb, orig_body in (("server", ups[0], "requestheaders", "request", by_tag[tag]["body"]), ("client", downs[0], "responseheaders", "response", resp_by_tag[tag]["body"] if tag in resp_by_tag else None)):
+            body_final, xe = by_hook[hb]["final"]
+            if by_hook[hb].get("streamed"):
+                xe = by_hook[hh]["final"][1]
+                exp_body = orig_body
+            else:
+                exp_body = body_final
+            got_xe = dict(got["headers"]).get("x-edit")
+            got_xe = got_xe.decode() if got_xe is not None else None
+            if got["body"] != exp_body or got_xe != xe:
+                S.violate("delivered-message-lacks-the-users-edit", {**witness, "tag": tag, "side": side, "expected_body": exp_body, "got_body": got["body"], "expected_x_edit": xe, "got_x_edit": got_xe})
+    for k in S.kills[:1]:
+        ctx.count("kill.nothing")
+        later = [(("client" if c is client else "server"), data[:80]) for (step, c, data) in d.out_log[k["out_idx"] :]]
+        if later:
+            S.violate("forwarded-after-kill", {**witness, "killed_at": k["hook"], "how": k["how"], "sent_after_kill": later[:6], "state": k["extra"]}, classify("h1", "kill.nothing", k))
+        S.check_kill_error(d, k, ("error",), excused_by=("response",))
+    feats = (mode.split(":")[0], "rs" if any(x.get("streamed") and x["side"] == "server" for x in S.records) else "", "ps" if any(x.get("streamed") and x["side"] == "client" for x in S.records) else "", n)
+    return S, d, feats, witness
+
+
+# --------------------------------------------------------------------------------------------------------------
+# HTTP/2 (multiplexed: 2-4 concurrent streams, h2 upstream)
+# --------------------------------------------------------------------------------------------------------------
+
+def run_h2_case(ctx, opts, loop, proto):
+    from vf import h1case, peers_h2
+
+    r = ctx.rng
+    n = r.choice([2, 2, 3, 4])
+    streams = {}
+    per_stream = []
+    for k in range(n):
+        tag = b"t%d-%06x" % (k, r.getrandbits(24))
+        body = b"" if r.random() < 0.35 else b"b:" + tag + b":" + bytes(r.choice(b"abcxyz012") for _ in range(r.choice([1, 10, 300, 3000])))
+        method = r.choice([b"POST", b"PUT"]) if body else r.choice([b"GET", b"GET", b"DELETE"])
+        hdrs = [(b":method", method), (b":scheme", b"http"), (b":authority", b"example.com"), (b":path", b"/" + tag), (b"x-req", tag)]
+        acts = [("headers", tag, hdrs, not body)]
+        if body:
+            k_parts = r.choice([1, 1, 2, 3])
+            cuts = sorted(r.sample(range(1, len(body)), min(k_parts - 1, len(body) - 1))) if k_parts > 1 else []
+            parts = [body[a:b] for a, b in zip([0] + cuts, cuts + [len(body)])]
+            for j, part in enumerate(parts):
+                acts.append(("data", tag, part, j == len(parts) - 1))
+        rbody = b"" if r.random() < 0.2 else b"r:" + tag + b":" + bytes(r.choice(b"klmnop789") for _ in range(r.choice([1, 10, 300, 3000])))
+        streams[tag] = {"body": body, "rbody": rbody, "method": method}
+        per_stream.append(acts)
+    # interleave the streams' actions, keeping each stream's own order
+    actions = []
+    idx = [0] * n
+    while any(idx[k] < len(per_stream[k]) for k in range(n)):
+        k = r.choice([k for k in range(n) if idx[k] < len(per_stream[k])])
+        actions.append(per_stream[k][idx[k]])
+        idx[k] += 1
+
+    origins = []
+
+    def responder(peer, sid, rec):
+        path = dict(rec["headers"] or []).get(b":path", b"")
+        m = HTAG.search(path)
+        tag = m.group(0) if m else None
+        st = streams.get(tag)
+        if st is None:
+            return [("headers", [(b":status", b"404")], True)]
+        rb = st["rbody"]
+        out = [("headers", [(b":status", b"200"), (b"x-tag", tag)], not rb)]
+        if rb:
+            half = len(rb) // 2
+            if half and r.random() < 0.5:
+                out += [("data", rb[:half], False), ("data", rb[half:], True)]
+            else:
+                out.append(("data", rb, True))
+        return out
+
+    def server_recs(tag):
+        out = []
+        for o in origins:
+            for sid, rec in o.streams.items():
+                if rec["headers"] is not None and tag is not None and tag in dict(rec["headers"]).get(b":path", b""):
+                    out.append(rec)
+        return out
+
+    def to_server(drv, tag):
+        return tuple((len(peers_h2.body_of(x)), len(x["chunks"]), x["ended"], x["trailers"] is not None) for x in server_recs(tag))
+
+    def to_client(drv, tag):
+        x = cpeer.by_key.get(tag)
+        if x is None:
+            return (False, 0, 0, False, False)
+        return (x["headers"] is not None, len(peers_h2.body_of(x)), len(x["chunks"]), x["ended"], x["trailers"] is not None)
+
+    S = Session(ctx, r, loop, "h2", http_describe_factory(r, to_server, to_client, 0.3, lambda tag: tag in streams and bool(streams[tag]["body"])), http_edit_factory(r), p_intercept=0.25, p_kill=0.04, transit=0.15)
+
+    def kill_state(drv, f, where):
+        st = http_kill_state(drv, f, where)
+        tag = http_tag(f)
+        st.update(to_server=to_server(drv, tag), to_client=to_client(drv, tag))
+        return st
+
+    S.kill_state = kill_state
+    client = sansio.make_client("regular")
+    client.alpn = b"h2"
+
+    def server_factory(drv, conn):
+        conn.alpn = b"h2"
+        o = peers_h2.H2ServerPeer(responder, r, out_cut=r.choice(["whole", "random"]))
+        origins.append(o)
+        return o
+
+    cpeer = peers_h2.H2ClientPeer(actions, r, cut=r.choice(["whole", "random", "fine"]))
+    d = sansio.Driver(
+        h1case.top_factory("regular"), client=client, options=opts, rng=r, addons=[h1case.ForceHttp(), ctx.c11_intercept], policy=S.policy,
+        server_factory=server_factory, schedule=r.choice(["random", "random", "fifo"]), m3=[S.m3], max_steps=4000,
+    )
+    d.attach_client_peer(cpeer)
+
+    blocked = []
+
+    def quiescent(drv, held):
+        held_tags = {h["rec"]["tag"] for h in held}
+        killed_tags = {http_tag(k["flow"]) for k in S.kills}
+        for tag in streams:
+            if tag in held_tags or tag in killed_tags:
+                continue
+            ctx.count("progress")
+            x = cpeer.by_key.get(tag)
+            if x is None or not (x["ended"] or x["reset"] is not None):
+                blocked.append(tag)
+                S.violate("stream-makes-no-progress-while-another-stream-is-intercepted",
+                          {"blocked_stream": tag, "held": [(h["rec"]["tag"], h["rec"]["hook"]) for h in held], "client_saw": None if x is None else x["events"], "hooks_of_blocked": [name for (st, name, hook, sn) in drv.hooks if hook.args() and isinstance(hook.args()[0], http.HTTPFlow) and http_tag(hook.args()[0]) == tag]})
+
+    S.drive(d, quiescent)
+
+    witness = {"proto": "h2", "streams": {t.decode(): (len(v["body"]), len(v["rbody"])) for t, v in streams.items()}, "hooks": d.hook_names()[:80], "records": [(x["hook"], x["tag"], x["decision"], x.get("streamed")) for x in S.records],
+               "kills": [(k["hook"], k["how"], http_tag(k["flow"])) for k in S.kills], "exceptions": [e[:3] for e in d.exceptions], "script_errors": cpeer.script_errors, "peer_protocol_errors": cpeer.protocol_errors + [e for o in origins for e in o.protocol_errors]}
+    if cpeer.script_errors:
+        raise RuntimeError(f"h2 client script illegal: {cpeer.script_errors}")
+    if witness["peer_protocol_errors"]:
+        S.violate("h2-library-rejected-bytes-written-by-the-proxy", witness)
+    killed = {}
+    for k in S.kills:
+        killed.setdefault(id(k["flow"]), k)
+    flows = {}
+    for rec in S.records:
+        flows.setdefault(rec["tag"], []).append(rec)
+    ok_dec = ("pass", "hold:resume", "hold:edit+resume")
+    for tag, recs in flows.items():
+        if tag not in streams:
+            continue
+        f = recs[0]["flow"]
+        ups = server_recs(tag)
+        down = cpeer.by_key.get(tag)
+        ctx.count("once")
+        if len(ups) > 1:
+            S.violate("message-delivered-more-than-once", {**witness, "tag": tag, "upstream_copies": len(ups)})
+            continue
+        by_hook = {x["hook"]: x for x in recs}
+        complete = id(f) not in killed and f.error is None and all(h in by_hook and by_hook[h]["decision"] in ok_dec for h in HTTP_HOOKS)
+        if not complete:
+            continue
+        if len(ups) != 1 or not ups[0]["ended"] or down is None or down["headers"] is None or not down["ended"]:
+            S.violate("resumed-message-not-delivered", {**witness, "tag": tag, "upstream": [u["events"] for u in ups], "client_saw": down and down["events"]})
+            continue
+        for side, got, hh, hb, orig_body in (("server", ups[0], "requestheaders", "request", streams[tag]["body"]), ("client", down, "responseheaders", "response", streams[tag]["rbody"])):
+            body_final, xe = by_hook[hb]["final"]
+            if by_hook[hb].get("streamed"):
+                xe = by_hook[hh]["final"][1]
+                exp_body = orig_body
+            else:
+                exp_body = body_final
+            got_xe = dict(got["headers"]).get(b"x-edit")
+            got_xe = got_xe.decode() if got_xe is not None else None
+            if peers_h2.body_of(got) != exp_body or got_xe != xe:
+                S.violate("delivered-message-lacks-the-users-edit", {**witness, "tag": tag, "side": side, "expected_body": exp_body, "got_body": peers_h2.body_of(got), "expected_x_edit": xe, "got_x_edit": got_xe})
+    for k in killed.values():
+        ctx.count("kill.nothing")
+        tag = http_tag(k["flow"])
+        st = k["extra"]
+        now = {"to_server": to_server(d, tag), "to_client": to_client(d, tag)}
+        if now["to_server"] != st["to_server"] or now["to_client"] != st["to_client"]:
+            S.violate("forwarded-after-kill", {**witness, "tag": tag, "killed_at": k["hook"], "how": k["how"], "at_kill": {"to_server": st["to_server"], "to_client": st["to_client"]}, "at_end": now, "state": {a: b for a, b in st.items() if a not in ("to_server", "to_client")}}, classify("h2", "kill.nothing", k))
+        S.check_kill_error(d, k, ("error",), excused_by=("response",))
+    feats = (n, "rs" if any(x.get("streamed") and x["side"] == "server" for x in S.records) else "", "ps" if any(x.get("streamed") and x["side"] == "client" for x in S.records) else "", len(origins))
+    return S, d, feats, witness
+
+
+# --------------------------------------------------------------------------------------------------------------
+# WebSocket (HTTP/1 upgrade through the real HttpLayer)
+# --------------------------------------------------------------------------------------------------------------
+
+def ws_data(stream: bytes):
+    """Decoded data messages / frame statistics of the WebSocket part of a byte stream that starts with an HTTP head."""
+    i = stream.find(b"\r\n\r\n")
+    if i < 0:
+        return [], (0, 0), []
+    frames, rest = wire.ws_decode(stream[i + 4 :])
+    msgs, ctrl, partial = wire.ws_messages(frames)
+    nd = sum(1 for fr in frames if fr[1] < 8)
+    nb = sum(len(fr[3]) for fr in frames if fr[1] < 8)
+    return msgs, (nd, nb), ctrl
+
+
+class WsOrigin(sansio.Peer):
+    def __init__(self, frames, r):
+        super().__init__()
+        self.frames = frames
+        self.upgraded = False
+
+    def on_data(self, data):
+        if not self.upgraded and b"\r\n\r\n" in self.received:
+            self.upgraded = True
+            self.send(b"HTTP/1.1 101 Switching Protocols\r\nUpgrade: websocket\r\nConnection: Upgrade\r\nSec-WebSocket-Accept: s3pPLMBiTxaQ9kYGzzhZRbK+xOo=\r\n\r\n")
+            for fr, need in self.frames:
+                if fr is sansio.EOF:
+                    self.close(lambda d, need=need: ws_data(bytes(self.received))[1][0] >= need)
+                else:
+                    self.send(fr, (lambda d, need=need: ws_data(bytes(self.received))[1][0] >= need))
+
+
+def ws_frames_for(r, msgs, masked):
+    """[(frame bytes, tag)] : each message as 1-3 frames, text or binary."""
+    out = []
+    for tag, data in msgs:
+        op = r.choice([wire.OP_TEXT, wire.OP_BIN])
+        k = r.choice([1, 1, 2, 3]) if len(data) >= 3 else 1
+        cuts = sorted(r.sample(range(1, len(data)), k - 1)) if k > 1 else []
+        parts = [data[a:b] for a, b in zip([0] + cuts, cuts + [len(data)])]
+        for j, part in enumerate(parts):
+            mask = bytes(r.getrandbits(8) for _ in range(4)) if masked else None
+            out.append(wire.ws_frame(op if j == 0 else wire.OP_CONT, part, fin=(j == len(parts) - 1), mask=mask))
+        if r.random() < 0.15:
+            out.append(wire.ws_frame(wire.OP_PING, b"p" + tag[:4], mask=bytes(r.getrandbits(8) for _ in range(4)) if masked else None))
+    return out
+
+
+def run_ws_case(ctx, opts, loop, proto):
+    from vf import h1case, peers
+
+    r = ctx.rng
+    cm = mk_msgs(r, b"c", r.randint(1, 4))
+    sm = mk_msgs(r, b"s", r.randint(0, 3))
+    sent = dict(cm + sm)
+    client = sansio.make_client("regular")
+    handshake = (b"GET http://example.com/ws-%06x HTTP/1.1\r\nHost: example.com\r\nConnection: Upgrade\r\nUpgrade: websocket\r\n"
+                 b"Sec-WebSocket-Version: 13\r\nSec-WebSocket-Key: dGhlIHNhbXBsZSBub25jZQ==\r\n\r\n" % r.getrandbits(24))
+
+    def describe(drv, hook, f):
+        if hook.name != "websocket_message":
+            return None
+        m = f.websocket.messages[-1]
+        mt = MSG.search(m.content)
+        dest = f.server_conn if m.from_client else drv.client
+        return {
+            "tag": mt.group(1) if mt else None, "side": "server" if m.from_client else "client", "msg": m, "orig": bytes(m.content),
+            "metric": lambda: ws_data(bytes(drv.out[dest]))[1], "capture": lambda: (bytes(m.content), bool(m.dropped)),
+        }
+
+    def edit(rec):
+        rec["msg"].content = b"<" + rec["tag"] + b":EDITED" + bytes(r.choice(b"XYZ") for _ in range(r.choice([0, 5, 9, 5000]))) + b">"
+
+    S = Session(ctx, r, loop, "ws", describe, edit, transit=0.15)
+    S.transit_gate = lambda d: any(x["hook"] == "websocket_message" for x in S.records)
+
+    def kill_state(drv, f, where):
+        srv = f.server_conn
+        return {"ws_open": f.websocket is not None and f.websocket.timestamp_end is None, "data_to_server": ws_data(bytes(drv.out[srv]))[1] if srv in drv.out else (0, 0), "data_to_client": ws_data(bytes(drv.out[drv.client]))[1]}
+
+    S.kill_state = kill_state
+    sframes = [(fr, r.choice([0, 0, 1, 2])) for fr in ws_frames_for(r, sm, False)]
+    end = r.choice(["none", "none", "client-close", "server-close", "client-eof"])
+    if end == "server-close":
+        sframes.append((wire.ws_frame(wire.OP_CLOSE, b"\x03\xe8bye"), len(cm)))
+    origin = WsOrigin(sframes, r)
+    d = sansio.Driver(
+        h1case.top_factory("regular"), client=client, options=opts, rng=r, addons=[h1case.ForceHttp(), ctx.c11_intercept], policy=S.policy,
+        server_factory=lambda drv, conn: origin, schedule=r.choice(["random", "random", "fifo"]), m3=[S.m3], max_steps=1500,
+    )
+    up = lambda dd: b"\r\n\r\n" in dd.out[client]
+    segs = list(peers.cut(handshake, r, r.choice(["whole", "random"])))
+    cstream = b"".join(ws_frames_for(r, cm, True))
+    if end == "client-close":
+        cstream += wire.ws_frame(wire.OP_CLOSE, b"\x03\xe8", mask=b"\x01\x02\x03\x04")
+    segs += [(sg, up) for sg in peers.cut(cstream, r, r.choice(["whole", "random", "random"]))]
+    if end == "client-eof":
+        segs.append((sansio.EOF, up))
+    d.attach_client_peer(sansio.ScriptPeer(segs))
+    S.drive(d)
+
+    server = d.servers[0] if d.servers else None
+    outs = {"server": bytes(d.out[server]) if server is not None else b"", "client": bytes(d.out[client])}
+    first_kill = S.kills[0] if S.kills else None
+    witness = {"proto": "ws", "end": end, "hooks": d.hook_names(), "records": [(x["hook"], x["tag"], x["decision"]) for x in S.records], "kills": [(k["hook"], k["how"]) for k in S.kills],
+               "exceptions": [e[:3] for e in d.exceptions]}
+    for rec in S.records:
+        if rec["tag"] is not None and sent.get(rec["tag"]) != rec["orig"]:
+            S.violate("hooked-message-differs-from-what-the-peer-sent", {**witness, "tag": rec["tag"], "recorded": rec["orig"]})
+    for side in ("server", "client"):
+        exp = []
+        for rec in S.records:
+            if rec["side"] != side or (first_kill is not None and rec["hook_idx"] >= first_kill["hook_idx"]):
+                continue
+            if rec["decision"] in ("pass", "hold:resume", "hold:edit+resume") and not rec["final"][1]:
+                exp.append(rec["final"][0])
+        got = [payload for op, payload in ws_data(outs[side])[0]]
+        ctx.count("once", max(1, len(exp)))
+        bad = (got != exp) if first_kill is None else (got[: len(exp)] != exp)
+        if bad:
+            S.violate("destination-stream-differs-from-passed-and-resumed-messages", {**witness, "side": side, "expected": exp, "got": got, "cut_at_first_kill": first_kill is not None})
+    for k in S.kills[:1]:
+        ctx.count("kill.nothing")
+        st = k["extra"]
+        now = {"data_to_server": ws_data(outs["server"])[1], "data_to_client": ws_data(outs["client"])[1]}
+        if st is not None and (now["data_to_server"] != st["data_to_server"] or now["data_to_client"] != st["data_to_client"]):
+            S.violate("forwarded-after-kill", {**witness, "killed_at": k["hook"], "how": k["how"], "data_frames_at_kill": st, "data_frames_at_end": now}, classify("ws", "kill.nothing", k))
+        if k["hook"] in HTTP_HOOKS:  # killed during the HTTP handshake: HTTP rules
+            S.check_kill_error(d, k, ("error",), excused_by=("response",))
+        else:
+            S.check_kill_error(d, k, ("websocket_end", "error"))
+    return S, d, (end,), witness
+
+
+# --------------------------------------------------------------------------------------------------------------
 # run
 # --------------------------------------------------------------------------------------------------------------
 
 FILTERS = {
+    "h2": [None, None, "~q", "~s", "~all", "~u t0-", "~u t1-", "~m POST | ~m PUT", "~bs r:t1"],
+    "ws": [None, None, "~websocket & ~b c1-", "~b s0-", "~b c0-", "~all", "~websocket"],
+    "h1": [None, None, "~q", "~s", "~all", "~u t0-", "~m POST | ~m PUT", "~bs r:"],
     "dns": [None, "~dns", "~dns & ~q", "~dns & ~s", "~all"],
     "tcp": [None, "~tcp", "~b c1-", "~b s0-", "~all"],
     "udp": [None, "~udp", "~b c1-", "~b s0-", "~all"],
 }
-RUNNERS = {"tcp": run_stream_case, "udp": run_stream_case, "dns": run_dns_case}
-PROTOS = ["tcp", "udp", "dns"]
+RUNNERS = {"tcp": run_stream_case, "udp": run_stream_case, "dns": run_dns_case, "h1": run_h1_case, "ws": run_ws_case, "h2": run_h2_case}
+PROTOS = ["h1", "h2", "h2", "ws", "tcp", "udp", "dns"]
 
 
 def run(ctx):
@@ -554,12 +1022,13 @@ def run(ctx):
     opts = tctx.options
     ctx.c11_intercept = addons[-1]
     loop = asyncio.new_event_loop()
+    ping0 = opts.http2_ping_keepalive
     try:
         for i in ctx.cases():
             r = ctx.rng
             proto = PROTOS[(i + ctx.worker) % len(PROTOS)] if r.random() < 0.7 else r.choice(PROTOS)
             filt = r.choice(FILTERS[proto])
-            opts.update(intercept=filt)
+            opts.update(intercept=filt, http2_ping_keepalive=0)  # (keep-alive PING timers would re-arm for ever on a timeless driver)
             res = ctx.guard(RUNNERS[proto], ctx, opts, loop, proto, what=f"c11 {proto} case")
             if res is None:
                 ctx.case(("aborted", proto), False)
@@ -577,5 +1046,5 @@ def run(ctx):
             sig = (proto, filt, tuple(sorted(S.acts)), feats)
             ctx.case(sig, S.held_with_events > 0 or bool(S.kills), {"proto": proto, "filter": filt, "acts": sorted(S.acts), "hooks": d.hook_names()[:40], "kills": [(k["hook"], k["how"]) for k in S.kills]})
     finally:
-        opts.update(intercept=None)
+        opts.update(intercept=None, http2_ping_keepalive=ping0)
         loop.close()
